@@ -281,5 +281,92 @@ void capture_alignment(decoder_t *d, Rec &rec)
     level(alignment_states(al), rec.states);
 }
 
+Lat capture_lattice(lattice_t *dag)
+{
+    Lat L;
+    if (!dag)
+        return L;
+    L.null = false;
+    L.n_frames = dag->n_frames;
+    std::vector<latnode_t *> raw;
+    for (latnode_t *n = dag->nodes; n; n = n->next) {
+        raw.push_back(n);
+        if (raw.size() > 200000)
+            break;
+    }
+    // canonical order
+    auto wordof = [&](latnode_t *n) {
+        const char *w = n->wid >= 0 ? dict_wordstr(dag->dict ? dag->dict : dag->search->dict, n->wid) : nullptr;
+        return std::string(w ? w : "?");
+    };
+    std::vector<size_t> order(raw.size());
+    for (size_t i = 0; i < raw.size(); ++i)
+        order[i] = i;
+    std::vector<std::string> words(raw.size());
+    for (size_t i = 0; i < raw.size(); ++i)
+        words[i] = wordof(raw[i]);
+    std::sort(order.begin(), order.end(), [&](size_t a, size_t b) {
+        latnode_t *x = raw[a], *y = raw[b];
+        if (x->sf != y->sf) return x->sf < y->sf;
+        if (words[a] != words[b]) return words[a] < words[b];
+        if (x->fef != y->fef) return x->fef < y->fef;
+        if (x->lef != y->lef) return x->lef < y->lef;
+        return x->node_id < y->node_id;
+    });
+    std::map<latnode_t *, int> idx;
+    for (size_t k = 0; k < order.size(); ++k) {
+        latnode_t *n = raw[order[k]];
+        idx[n] = (int)k;
+        LatNode ln;
+        ln.word = words[order[k]];
+        ln.sf = n->sf;
+        ln.fef = n->fef;
+        ln.lef = n->lef;
+        ln.node_id = n->node_id;
+        L.nodes.push_back(ln);
+    }
+    for (size_t k = 0; k < order.size(); ++k) {
+        latnode_t *n = raw[order[k]];
+        for (latlink_list_t *x = n->exits; x; x = x->next) {
+            LatLink ll;
+            ll.from = (int)k;
+            auto it = idx.find(x->link->to);
+            ll.to = it == idx.end() ? -1 : it->second;
+            ll.ef = x->link->ef;
+            ll.ascr = x->link->ascr;
+            ll.ptr = x->link;
+            L.links.push_back(ll);
+        }
+    }
+    std::stable_sort(L.links.begin(), L.links.end(), [](const LatLink &a, const LatLink &b) {
+        if (a.from != b.from) return a.from < b.from;
+        if (a.to != b.to) return a.to < b.to;
+        return a.ef < b.ef;
+    });
+    for (size_t k = 0; k < L.links.size(); ++k) {
+        L.nodes[(size_t)L.links[k].from].exits.push_back((int)k);
+        if (L.links[k].to >= 0)
+            L.nodes[(size_t)L.links[k].to].entries.push_back((int)k);
+    }
+    if (dag->start && idx.count(dag->start))
+        L.start = idx[dag->start];
+    if (dag->end && idx.count(dag->end))
+        L.end = idx[dag->end];
+    return L;
+}
+
+std::string Lat::canon() const
+{
+    if (null)
+        return "null";
+    std::string s = "F" + std::to_string(n_frames) + " S" + std::to_string(start) + " E" + std::to_string(end) + ";";
+    for (auto &n : nodes)
+        s += n.word + "@" + std::to_string(n.sf) + ":" + std::to_string(n.fef) + "-" + std::to_string(n.lef) + ",";
+    s += ";";
+    for (auto &l : links)
+        s += std::to_string(l.from) + ">" + std::to_string(l.to) + "@" + std::to_string(l.ef) + "/" + std::to_string(l.ascr) + ",";
+    return s;
+}
+
 } // namespace dec
 } // namespace sim
